@@ -58,7 +58,12 @@ ZDD_ASSUME = [
 
 def zdd_witness(scratch):
     """native differential search over <= 3 variables on the real varpulis-zdd API; attaches inputs, decides nothing"""
-    wdir = os.path.join(VERIF, "witness/zdd")
+    import shutil
+    wdir = os.path.join(scratch, "witness-zdd")
+    shutil.rmtree(wdir, ignore_errors=True)
+    shutil.copytree(os.path.join(VERIF, "witness/zdd"), wdir)
+    ct = open(os.path.join(wdir, "Cargo.toml")).read().replace("/repo/", vpv.REPO.rstrip("/") + "/")
+    open(os.path.join(wdir, "Cargo.toml"), "w").write(ct)
     tgt = os.path.join(scratch, "wit-target")
     rc, out = vpv.sh(["cargo", "build", "--offline", "--release"], cwd=wdir, env={"CARGO_TARGET_DIR": tgt}, timeout=900)
     if rc != 0:
@@ -142,3 +147,13 @@ VERUS_UNITS["C07"] = _zdd_unit("C07",
     "two references denoting the same family are EQUAL (same root). (C) GC core: remap_to_new_table / remap_ref are verified to return, in "
     "the fresh table, a reference denoting exactly the family of the live handle, and the fresh table satisfies wf. NOT proved: gc's "
     "top-level glue (closure), and 'iteration yields each member exactly once' (see level note).", level="proof")
+
+
+VERUS_UNITS["C03"] = _zdd_unit("C03",
+    "FAMILY HALF ONLY. KleeneCapture::{new, extend, extend_simple, event_count} (sase.rs) are extracted and verified on top of the arena "
+    "contracts: invariant next_var == events.len() == aliases.len(); and if every extension went through `extend`, the ZDD handle denotes "
+    "EXACTLY the family of all subsets of {0..n-1} (each accumulated event optional, each combination represented once as a set, the new event "
+    "always gets the fresh variable n). NOT decided here: enumerate_with_filter / evaluate_deferred_predicate / complete_run (filtering of "
+    "consecutive members, non-empty requirement), the two cap comparisons in advance_run_shared (max Kleene events, max results) and the "
+    "single-match path; they live in functions built on FxHashMap<String, Arc<Event>>, Instant and closures, outside both verifiers. A mutated "
+    "cap is NOT detected by this check.", level="other")
